@@ -24,6 +24,10 @@ WS = {
 }
 
 
+EXTRA = ["1484823450", "1484823450123", "1484823450123456", "2014-10-20 13:08:05", "2014-10-20T13:08",
+         "20141020", "3 days ago", "in 15 minutes", "10:15 pm", "12.10.2015", "15 Nov 2011 14:05:59"]
+
+
 def parse(s):
     from dateparser.date import DateDataParser
 
@@ -67,6 +71,9 @@ def main():
     corpus = test_strings()
     if a.tier == "quick":
         corpus = corpus[::3]
+    # every parser of the chain sees digits: epoch numbers (timestamp parser, which reads the string
+    # before the locale's numeral translation), counts, compact and ISO forms
+    corpus = EXTRA + [c for c in corpus if c not in EXTRA]
     res = pmap(work, corpus, a.procs)
     failures = []
     total = 0
